@@ -89,6 +89,25 @@ unsigned int LocID::referenceCount() const {
     res.check("LocID:referenceCount: Coud not get object info");
     return oInfo.rc;
 }
+
+
+bool LocID::isLinked() const {
+    // H5Iget_name yields a path from the root group, or nothing when there is none any more; for datasets the
+    // remembered path can be stale, so it is resolved again and has to lead to this very object
+    std::string path = name();
+    if (path.empty()) {
+        return false;
+    }
+
+    H5O_info_t self, found;
+    if (H5Oget_info(hid, &self) < 0) {
+        return false;
+    }
+    if (H5Oget_info_by_name(hid, path.c_str(), &found, H5P_DEFAULT) < 0) {
+        return false;
+    }
+    return found.fileno == self.fileno && found.addr == self.addr;
+}
 } // nix::hdf5
 
 } // nix::
